@@ -1185,7 +1185,8 @@ struct Digit {
         const bool round =
             (((*number > DigitUtils::DigitChar::Five) ||
               ((*number == DigitUtils::DigitChar::Five) &&
-               (round_up || ((SizeT32(stream.First()[index] - DigitUtils::DigitChar::Zero) & 1U) == 1U)))));
+               (round_up || ((index < stream.Length()) && // No higher digit: it is an (even) zero.
+                             ((SizeT32(stream.First()[index] - DigitUtils::DigitChar::Zero) & 1U) == 1U))))));
 
         if (round) {
             ++number;
